@@ -56,6 +56,7 @@ var errDropTable = map[string]string{
 	"json.Unescape|json.(decoder).parseStringUnquote":            "API has no error result; malformed input yields the documented best-effort result",
 	"proto.sliceEncodeFuncOf|proto.encodeTag":                    "pre-encoding of the tag into a buffer sized by sizeOfTag of the same arguments",
 	"proto.mapEncodeFuncOf|proto.encodeTag":                      "pre-encoding of one-byte tags (field numbers 1 and 2) and of the map tag into a buffer sized by sizeOfTag of the same arguments",
+	"json.constructMapCodec$|invoke MarshalText":                 "text of a key for the sort comparator: the same MarshalText is invoked again by the key encoder, which reports its error",
 	"json.constructMapCodec$$|invoke MarshalText":                "sort comparator: the same MarshalText is invoked again by the key encoder, which reports its error",
 }
 
